@@ -44,6 +44,7 @@ def run_check(args):
     env = dict(os.environ)
     env["VERIF_REPO"] = root
     env["VERIF_EVIDENCE_DIR"] = os.path.join(root, "_evidence")
+    env.setdefault("VERIF_JOBS", "4")
     rc, out = sh([os.path.join(VERIF, "vcheck"), prop, "--tier", "quick"], cwd=VERIF, env=env)
     rules = sorted(set(re.findall(r"violated (\S+)", out)))
     err = [l for l in out.splitlines() if l.startswith("ANALYSIS-ERROR")]
